@@ -40,7 +40,7 @@ def check_case(rep, drv, case, modes, rng, other=b'\x02\x01\x07'):
             ok = idr[0] == 'ok' and idr[2] == tail and gen.val_equiv(case.t, idr[1], ref[1])
             if not ok:
                 sig = sigs.classify_roundtrip(case.t, case.v, cdc, dm)
-                if sig is None and idr[0] == 'ok' and sigs.has_constructed_default(case.t):
+                if sig is None and idr[0] == 'ok' and sigs.t11(case):
                     sig = 'T11-default-of-constructed-type'
                 if sig is None:
                     if idr[0] != 'ok':
